@@ -249,3 +249,37 @@ Proof.
 Qed.
 
 End S.
+
+(* ---------- Not(...) : the constructor route to negation (C05) ---------- *)
+Section NotFacts.
+Variable genid : genid_t.
+Variable env : ident -> Z.
+
+(* the proposition Not() negates: the argument itself, an atom wrapped into All(atom) *)
+Lemma as_comp_var_eval i lo hi : eval env (as_comp genid (Var i lo hi)) = if 1 <=? env i then 1 else 0.
+Proof.
+  unfold as_comp. cbn [is_var]. unfold c_all, c_all_m. rewrite eval_mk_node. cbn [map zsum eval].
+  change (set_len [Var i lo hi]) with 1. change (default_sign 1) with 1.
+  replace (1 * (env i + 0)) with (env i) by lia. reflexivity.
+Qed.
+Lemma as_comp_ok p : ok env p -> ok env (as_comp genid p).
+Proof.
+  intros H. unfold as_comp. destruct (is_var p) eqn:E; [|exact H].
+  unfold c_all, c_all_m. apply ok_mk_node; auto.
+Qed.
+
+(* Not(p) evaluates to 1 exactly when p (an atom read as "value >= 1") evaluates to 0 *)
+Theorem not_complement p : ok env p ->
+  eval env (c_not genid p) = 1 - eval env (as_comp genid p).
+Proof.
+  intros H. unfold c_not. apply negate_complement; [apply as_comp_ok; exact H|apply is_var_as_comp].
+Qed.
+Theorem not_atom i lo hi : lo <= env i <= hi ->
+  eval env (c_not genid (Var i lo hi)) = if env i <=? 0 then 1 else 0.
+Proof.
+  intros H. rewrite not_complement by (cbn; exact H). rewrite as_comp_var_eval.
+  destruct (1 <=? env i) eqn:E1, (env i <=? 0) eqn:E2; lia.
+Qed.
+Theorem not_compound p : ok env p -> is_var p = false -> eval env (c_not genid p) = 1 - eval env p.
+Proof. intros H Hv. rewrite not_complement by exact H. unfold as_comp. rewrite Hv. reflexivity. Qed.
+End NotFacts.
